@@ -96,6 +96,9 @@ func convertible(from, to string) bool {
 	return false
 }
 
+// Convertible is the model's (deliberately coarse) type compatibility.
+func Convertible(from, to string) bool { return convertible(from, to) }
+
 func elemType(t string) string {
 	for _, p := range []string{"list(", "set(", "map("} {
 		if strings.HasPrefix(t, p) {
@@ -142,7 +145,10 @@ func (w *originWalker) anyExpr(e *world.Expr, typ string) {
 			w.anyExpr(a, "any")
 		}
 	case "tmpl":
-		if !convertible("string", typ) {
+		// "${x}" alone is x itself (HCL unwraps a single interpolation), so it
+		// is type-correct wherever x is; a template with more parts is a string
+		wrap := len(e.A) == 1 && e.A[0].K != "str"
+		if !wrap && !convertible("string", typ) {
 			w.may(e)
 			return
 		}
